@@ -158,11 +158,12 @@ func init() {
 		Runs: []RunDef{
 			{Fn: "H_two", Fuel: 20_000_000, Tier: "quick", Reach: []string{"end"}},
 			{Fn: "H_members", Fuel: 20_000_000, Tier: "quick", Reach: []string{"end"}},
+			{Fn: "H_factory", Fuel: 20_000_000, Tier: "quick", Reach: []string{"end"}},
 			{Fn: "H_history", Params: k(2), Fuel: 20_000_000, Tier: "quick", Reach: []string{"end"}},
 			{Fn: "H_history", Params: k(3), Fuel: 20_000_000, Tier: "quick", Reach: []string{"end"}},
 			{Fn: "H_history", Params: k(4), Fuel: 30_000_000, Tier: "thorough", Reach: []string{"end"}},
 		},
-		Rule:    rule + "; every history of k steps over {instantiate Box<int|string|array|U> into one of 2 slots, write a value of kind int|string|array|U into a slot's T-typed property, pass it to a T-typed method parameter}; the script is assembled per path and parsed by the real generic-class parser; expected acceptance is computed per instance from its own type argument; H_members: Pair<K,V> with three typed members touched in every order; H_two: two instantiations alive at once. Structural enumeration through the engine; the int payload is symbolic",
+		Rule:    rule + "; every history of k steps over {instantiate Box<int|string|array|U> into one of 2 slots, write a value of kind int|string|array|U into a slot's T-typed property, pass it to a T-typed method parameter}; the script is assembled per path and parsed by the real generic-class parser; expected acceptance is computed per instance from its own type argument; H_members: Pair<K,V> with three typed members touched in every order; H_two: two instantiations alive at once; H_factory: one new-site evaluated three times (factory function / loop body), objects written in every rotation. Structural enumeration through the engine; the int payload is symbolic",
 		Outside: []string{"generic classes with more than two parameters, generic functions", "concurrent instantiation (only sequential orders)", "histories longer than 4"},
 	})
 
@@ -295,11 +296,13 @@ func init() {
 			c01("H_lex_spans", n(0), "quick", "lexed"), c01("H_lex_spans", n(1), "quick", "lexed"),
 			c01("H_lex_spans", map[string]int{"n": 2, "ctx": 0}, "quick", "lexed"),
 			c01("H_lex_spans_mid", n(0), "quick", "lexed"), c01("H_lex_spans_mid", n(1), "quick", "lexed"), c01("H_lex_spans_mid", n(2), "quick", "lexed"),
+			c01("H_lex_template_spans", n(0), "quick", "lexed"), c01("H_lex_template_spans", n(1), "quick", "lexed"), c01("H_lex_template_spans", n(2), "quick", "lexed"),
+			c01("H_error_line", n(0), "quick", "parsed", "end"), c01("H_error_line", n(1), "quick", "parsed", "end"), c01("H_error_line", n(2), "thorough", "parsed", "end"),
 			c01("H_lex_spans_mid", n(3), "thorough", "lexed"),
 			c01("H_lex_spans", n(2), "thorough", "lexed"),
 		},
-		Rule:    rule + "; span laws asserted on every token of the real Tokenize output for opener ‖ symbolic window: 0<=Start<=End<=len, ordered/non-overlapping, Line = number of '\\n' before Start (sum of ite terms over symbolic bytes), Literal = src[Start:End] for identifier/number/variable tokens",
-		Outside: []string{"error-location clause (file:line of parse/runtime errors)", "columns inside re-lexed interpolation fragments", "HTML mode, LSP", "windows > 2 bytes"},
+		Rule:    rule + "; span laws asserted on every token of the real Tokenize output for opener ‖ symbolic window: 0<=Start<=End<=len, ordered/non-overlapping, Line = number of '\\n' before Start (sum of ite terms over symbolic bytes), Literal = src[Start:End] for identifier/number/variable tokens; H_lex_template_spans: the same laws on TokenizeTemplate (HTML + <?php ?> blocks, window before / inside / after a block); H_error_line (second clause): a program with one planted fault (5 runtime faults ending in an uncaught throwable, 6 parse faults) on its own line after a neutral construct holding the symbolic window (comment, string, nowdoc, blanks) must carry, in the location the diagnostic prints, the line computed from the symbolic bytes",
+		Outside: []string{"columns of error locations; faults inside multi-line constructs; the text written to stderr (the location object the printer formats is checked)", "columns inside re-lexed interpolation fragments", "HTML mode, LSP", "windows > 2 bytes"},
 	})
 
 	c14b := func(fn string, nn int, tier string) RunDef {
